@@ -247,3 +247,21 @@ seed('S-c15e', 'C15', 'lexgen_util: Peekable replaced by a hand-written Lookahea
      'first run inconclusive (Option::get_or_insert_with); summary added; the structural comparison of clone and original reports the lost character, replayed natively')
 seed('S-c18e', 'C18', 'char_range_gen: the scan runs to char::MAX + 1 as a sentinel and the flush after the loop is removed (the sentinel is skipped by the surrogate arm)',
      'a predicate true at U+10FFFF: its last range is dropped', ['C18'], [], 'exit obligation of the cut-point harness')
+# ---- round 12
+seed('S-c03g', 'C03', 'dfa/backtrack.rs update_backtracks: rule-set entry states are not counted as sources of saved matches',
+     'a rule that matches the empty string (its rule-set entry state is accepting), and a longer alternative that fails one step later', [], ['C03'],
+     'NOT DETECTED and outside the claim: needs a rule that matches the empty string, which the precondition of the properties excludes ("no rule matches the empty string"); the families never generate such rules')
+seed('S-c04g', 'C04', 'lib.rs compile_single_rule: a rule whose right context is exactly `$` is rewritten to `re $` (end of input consumed, longer match)',
+     're > $ after a context-free rule for the same lexeme at the end of the input, or an action that switches to a rule set with a `$` rule', ['C04'], [], '')
+seed('S-c05g', 'C05', 'nfa_to_dfa.rs: `$` edges to the accepting state of a rule listed after a rule the DFA state already accepts for are pruned',
+     're listed before re $: the `$` rule never fires', ['C05'], [], '6 roles')
+seed('S-c06h', 'C06', 'lexgen_util backtrack(): last_match.clone() instead of take() (same idea as S-c10f, asked for C06)',
+     'a token that ended by rewinding, then a state whose only accept has a failing right context and that fails: the old token is returned again', ['C06'], [], '')
+seed('S-c07f', 'C07', 'lexgen_util backtrack(): the no-saved-match arm no longer resets __state (same change as S-c08, asked for C07)',
+     'a failure through backtrack() with nothing saved after passing a non-inlined state, and further calls', ['C07'], [], '18 roles')
+seed('S-c10g', 'C10', 'lexgen_util backtrack(): the iterator is restored only if match_end.byte_idx < input.len() (input is "" for iterator lexers)',
+     'an iterator lexer that rewinds over already consumed characters', ['C10'], [], 'the run-time families use iterator lexers; 23 roles')
+seed('S-c13f', 'C13', 'range_map.rs remove_ranges `<` -> `<=` (same change as S-c11, asked for C13)',
+     '$$class # X where a removed range ends exactly on the first character of a class range', ['C13'], [], 'bi_combo / class-difference lexers of the C13 family')
+seed('S-c14f', 'C14', 'lexgen_util: the iterator saved with an accepting state is dropped when current_match_end.byte_idx == input.len() (always true at offset 0 for iterator lexers)',
+     'an iterator lexer and a rewind to a match recorded at byte offset 0', ['C14'], [], 'behavioural comparison of &str and iterator lexers')
